@@ -131,10 +131,19 @@ Definition state_to_sx (s : state) : sx :=
                                                   SL (map sx_N (Outline.bm_children (snd kv)))]) tbl)]]
   end.
 
+(* harness convention: (save ..) is not run on a document whose max_id exceeds 1 000 000 (write_xref and
+   create_xref_steam loop over every object number up to max_id) *)
+Definition save_skipped_here (d : state) (o : sop) : bool :=
+  match o with
+  | SDoc (Save _) => (1000000 <? d_max_id (Outline.base d))%N
+  | _ => false
+  end.
+
 Fixpoint trace (O : oracles) (d : state) (prev : bytes) (ops : list sop) : list sx :=
   match ops with
   | [] => []
   | o :: ops' =>
+    if save_skipped_here d o then SL [sx_id "skipped"; SA (bs "=")] :: trace O d prev ops' else
     let '(d', r) := sstep O d o in
     let dump := state_to_sx d' in
     let txt := sx_print dump in
